@@ -208,6 +208,18 @@ theorem interval_roundtrip_unsound : ¬ IntervalRoundtripFull := by
   revert this
   decide
 
+/-- PROVED PART: every interval with i32 fields and a whole number of seconds
+(`ms % 1000 = 0`) survives Display + FromStr (negative fields, zero fields, singular/plural
+units, any i32 magnitude: no overflow panic on the way back). -/
+theorem interval_roundtrip_partial (m d ms : Int) (hm : inI32 m = true) (hd : inI32 d = true)
+    (hms : inI32 ms = true) (hsec : ms % 1000 = 0) :
+    parseInterval (displayInterval m d ms) = .ok (m, d, ms) :=
+  parseInterval_displayInterval m d ms hm hd hms hsec
+
+example : parseInterval (displayInterval (-2147483648) 2147483647 (-2147483000)) =
+    .ok (-2147483648, 2147483647, -2147483000) :=
+  interval_roundtrip_partial _ _ _ (by decide) (by decide) (by decide) (by decide)
+
 example : parseInterval (displayInterval 14 3 14706000) = .ok (14, 3, 14706000) := by decide
 example : parseInterval (displayInterval (-14) (-3) (-14706000)) = .ok (-14, -3, -14706000) := by decide
 example : parseInterval (displayInterval 0 0 1500) = .ok (0, 0, 1000) := by decide
@@ -233,6 +245,24 @@ theorem timestamp_wholesec_roundtrip_unsound :
   have := h (-922097156719000000) (by decide) _ rfl
   revert this
   decide
+
+/-- PROVED PART: a timestamp with a whole number of seconds (`µs % 10⁶ = 0`) that Display can
+print (no i64 underflow, inside chrono's range) and whose civil year is ≥ −9999 survives
+Display + FromStr — AD years up to +262142 (signed 5–6 digit years included) and the ` BC` form. -/
+theorem timestamp_roundtrip_partial (us : Int) (hsec : us % 1000000 = 0)
+    (hlo : i64Lo ≤ us - thirtyYearsUs)
+    (hr : tsMsInRange (Int.tdiv (us - thirtyYearsUs) 1000) = true)
+    (hy : -9999 ≤ (civilFromDays (Int.tdiv (us - thirtyYearsUs) 1000 / 86400000)).1) :
+    ∃ t, displayTimestamp us = .ok t ∧ parseTimestamp t = some (.ok us) :=
+  parseTimestamp_displayTimestamp us hsec hlo hr hy
+
+-- 2000-01-01 00:00:00 (stored 946684800·10⁶ + 30y), a BC value, a year-10000 value
+example : ∃ t, displayTimestamp 1893369600000000 = .ok t ∧ parseTimestamp t = some (.ok 1893369600000000) :=
+  timestamp_roundtrip_partial _ (by decide) (by decide) (by decide) (by decide)
+example : ∃ t, displayTimestamp (-70000000000000000) = .ok t ∧ parseTimestamp t = some (.ok (-70000000000000000)) :=
+  timestamp_roundtrip_partial _ (by decide) (by decide) (by decide) (by decide)
+example : ∃ t, displayTimestamp 300000000000000000 = .ok t ∧ parseTimestamp t = some (.ok 300000000000000000) :=
+  timestamp_roundtrip_partial _ (by decide) (by decide) (by decide) (by decide)
 
 example : ∃ t, displayTimestamp 0 = .ok t ∧ parseTimestamp t = some (.ok 0) := ⟨_, rfl, by decide⟩
 -- a negative sub-millisecond part is dropped silently instead
